@@ -7,6 +7,7 @@ CONSTANTS
   MaxIt = 1
   Sorted = "none"
   Ops = {"Put", "PutPrev", "PutIfAbsent", "GetOrPut", "PutOrRemove", "PutAtFront", "PutAtBack", "PutBefore", "PutBehind", "PutAtPosition", "GetAndMoveToFront", "GetAndMoveToBack", "Remove", "RemoveGet", "RemoveFirst", "RemoveLast", "MoveToFront", "MoveToBack", "MoveToBefore", "MoveToBehind", "MoveToPosition", "SortByKey", "SortByValue", "SortSelf", "Clear", "Destroy", "EnsureSize", "ShrinkToFit", "ItNew", "ItNewAt", "ItAdv", "ItRet", "ItFlip", "ItDel"}
+  PutVals = "any"
   Wrong = {}
   GHOST = TRUE
   RECORD = FALSE
